@@ -105,7 +105,7 @@ def gate_cases(ctx, world, n):
     lits, cj = [], []
     for _ in range(n):
         f, lit, j = outcome(rng)
-        cond = rng.choice(["f()"] * 8 + [None, "", "  ", "\t", "\x1f", "\u00a0 ", "\u2003\t\x85", "\u3000\n", " \x1c\x0b"])     # blank = str.strip() is empty
+        cond = rng.choice(["f()"] * 7 + [" f()", None, "", "  ", "\t", "\x1f", "\u00a0 ", "\u2003\t\x85", "\u3000\n", " \x1c\x0b"])     # blank = str.strip() is empty
         action = LocationAction("tp", cond, {"fire_count": "-1", "fire_period": "0"}, LocationAction.ActionType.Log)
         frame = e2.mk_frame("/app/m.py", "f", 3, {"f": f})
         tc = TriggerContext(world.cfg, world.push, frame, "line", None)
@@ -116,8 +116,8 @@ def gate_cases(ctx, world, n):
             ctx.fail("can_trigger raised %r for a condition with outcome %s" % (ex, j), dict(j, cond=cond), tag="gate-raised")
             continue
         j = dict(j, cond=cond, fires=obs)
-        ctx.case(j, nontrivial=cond == "f()", bucket="gate " + ("error" if "raises" in j else "value"))
-        if cond == "f()" and "raises" in j and obs:
+        ctx.case(j, nontrivial=cond in ("f()", " f()"), bucket="gate " + ("error" if "raises" in j else "value"))
+        if cond in ("f()", " f()") and "raises" in j and obs:
             ctx.fail("a condition that failed to evaluate (%s) let the tracepoint fire" % j["raises"], j, tag="error-fires")
         lits.append("{| gc_cond := %s; gc_res := %s; gc_obs := %s |}" % (L.opt(None if cond is None else L.s(cond)), lit, L.b(obs)))
         cj.append(j)
@@ -136,7 +136,8 @@ def budget_cases(ctx, world, clock, n):
         world.install([Trigger(LineLocation("m.py", 7, Location.Position.START), [action])])
         world.push.snapshots.clear()
         t = e2.BASE_NS
-        hits, obs, jh = [], [], []
+        hits, obs, jh, want = [], [], [], []
+        ref_n, ref_last = 0, None
         for i in range(rng.choice([2, 4, 8, 15])):
             t += rng.choice([1, 1000, 2_000_000])
             f, lit, j = outcome(rng) if rng.random() < 0.75 else ((lambda: True), "(EVal %s)" % L.s("True"), dict(value="True"))
@@ -148,10 +149,25 @@ def budget_cases(ctx, world, clock, n):
             obs.append(len(world.push.snapshots) > before)
             hits.append("(%s, %s)" % (L.z(t), lit))
             jh.append(j)
+            # reference, from the statement: a hit collects exactly when the limits allow it and its condition evaluates to true;
+            # a rejected hit changes nothing, so a LATER hit whose condition is true still collects
+            try:
+                truth = str(f()).lower() in ("true", "1", "y", "yes", "t")
+            except BaseException:
+                truth = False
+            allowed = (int(count) == -1 or ref_n < int(count)) and (ref_last is None or t - ref_last >= int(period) * 1_000_000)
+            want.append(bool(allowed and truth))
+            if allowed and truth:
+                ref_n, ref_last = ref_n + 1, t
         cnt, _ = e2.stats_of(action)
         j = dict(fire_count=count, fire_period=period, hits=jh, collected=obs, fires_recorded=cnt)
         ctx.case(j, nontrivial=any("raises" in h for h in jh) and any(obs), bucket="budget count=%s" % count)
         # oracle: rejected hits use no budget -> fires recorded == collections; failing conditions never collect
+        if obs != want:
+            i = [a != b for a, b in zip(obs, want)].index(True)
+            ctx.fail("hit %d (condition outcome %s): collected=%s; the limits and the condition say %s (earlier hits: %s)" % (
+                i, jh[i], obs[i], want[i], [("collected" if o else "rejected") for o in obs[:i]]), dict(j, required=want),
+                tag="not-live" if want[i] else "collected-against-condition")
         if cnt != sum(obs):
             ctx.fail("%d fires recorded for %d collections (a rejected hit used budget)" % (cnt, sum(obs)), j, tag="budget")
         for h, o in zip(jh, obs):
@@ -167,7 +183,8 @@ def watch_cases(ctx, world, n):
     """Each expression has its own result: a failing watch is an error result, the others are as when alone."""
     from deep.api.tracepoint.trigger import LocationAction, Trigger, LineLocation, Location
     rng = ctx.rng
-    pool = ["a", "b + 1", "len(s)", "s.upper()", "d['k']", "missing", "1/0", "d['nope']", "s.nope", "boom()", "exit_()", "G", "a +"]
+    pool = ["a", "b + 1", "len(s)", "s.upper()", "d['k']", "missing", "1/0", "d['nope']", "s.nope", "boom()", "exit_()", "G", "a +",
+            " a", "\tb + 1", "  len(s) "]          # an expression may start with blanks (eval skips them)
 
     def snap_for(watches, loc, glb):
         action = LocationAction("tp", None, {"fire_count": "-1", "fire_period": "0", "frame_type": "single_frame", "watches": watches},
@@ -206,6 +223,9 @@ def watch_cases(ctx, world, n):
             if va != vb:
                 ctx.fail("watch %r gives %r among %s but %r alone" % (w_expr, va, ws, vb), j, tag="watch-dependent")
             failing = w_expr in ("missing", "1/0", "d['nope']", "s.nope", "boom()", "exit_()", "a +")
+            if not failing and va[0] == "value" and type(eval(w_expr, dict(glb), dict(loc))) in (int, str, float) \
+                    and va[2] != str(eval(w_expr, dict(glb), dict(loc))):
+                ctx.fail("watch %r gives %r, the frame gives %r" % (w_expr, va, str(eval(w_expr, dict(glb), dict(loc)))), j, tag="watch-value")
             is_err = va[0] == "error" or (va[1] or "").endswith(("Error", "Exit"))
             if failing != is_err:
                 ctx.fail("watch %r (%s) reported as %r" % (w_expr, "fails" if failing else "evaluates", va), j, tag="watch-error-form")
